@@ -442,3 +442,49 @@ def argument_degree_rules(clsname):
         print('REPLAY: VIOLATION-CONFIRMED the degree of u*u / of a constant is not delivered (%s)' % type(e).__name__)
         return
     print('REPLAY: not reproduced')
+
+
+def field(which):
+    """field/dotarg on small concrete arrays: the created argument, the announced table, the shape and the value (repeated tensordot over the first axes)"""
+    from nutils import function
+    f = getattr(function, which)
+    p = function.Argument('p', (4,), float)
+    pv = numpy.array([2., -1., .5, 3.])
+    m0, m1, v0 = numpy.arange(6.).reshape(2, 3) - 2, numpy.arange(8.).reshape(4, 2) + 1, numpy.array([1., -2., 4.])
+    cases = [((), (), (5,), float), (((m0, 0),), (), (), float), (((v0, 1),), (), (2,), float), (((m0, 0), (m1, 2)), (), (5,), float), (((v0, 3), (m1, 0)), (), (), float), (((m0, 1),), (), (2,), complex)]
+    rng = numpy.random.RandomState(3)
+    for arrs, _, shape, dtype in cases:
+        arrays = [function.Array.cast(a) * p[k] for a, k in arrs]
+        nums = [a * pv[k] for a, k in arrs]
+        what = '%s("u", %s, shape=%r, dtype=%s)' % (which, ', '.join('array%r' % (a.shape,) for a in arrays), shape, dtype.__name__)
+        try:
+            r = f('u', *arrays, shape=shape, dtype=dtype)
+        except Exception as e:
+            print('%s raised %s: %s' % (what, type(e).__name__, e))
+            print('REPLAY: VIOLATION-CONFIRMED a valid field raises')
+            return
+        ashape = tuple(a.shape[0] for a in arrays) + shape
+        wantargs = {'u': (ashape, dtype)}
+        if arrays:
+            wantargs['p'] = ((4,), float)
+        wantshape = shape + sum((a.shape[1:] for a in arrays), ())
+        if r.shape != wantshape or dict(r.arguments) != wantargs:
+            print('%s: shape %r arguments %r, expected shape %r arguments %r' % (what, r.shape, dict(r.arguments), wantshape, wantargs))
+            print('REPLAY: VIOLATION-CONFIRMED field announces the wrong shape or arguments')
+            return
+        uv = rng.rand(*ashape).astype(dtype)
+        ref = uv
+        for a in nums:
+            ref = numpy.tensordot(ref, a, axes=([0], [0]))
+        got = function.eval(r, arguments=dict(u=uv, p=pv))
+        if numpy.shape(got) != numpy.shape(ref) or not numpy.allclose(got, ref):
+            print('%s evaluates to\n%r\nthe inner product over the first axes is\n%r' % (what, got, ref))
+            print('REPLAY: VIOLATION-CONFIRMED field is not the inner product with the first axes of the arrays')
+            return
+    try:
+        f('p', function.Array.cast(m0) * p[0])
+        print('REPLAY: VIOLATION-CONFIRMED a field named like an argument of its array with another shape is accepted')
+        return
+    except ValueError:
+        pass
+    print('REPLAY: not reproduced')
